@@ -262,6 +262,7 @@ impl<'t, D: Distance> Reader<'t, D> {
     /// Returns an iterator over the items vector.
     pub fn iter(&self, rtxn: &'t RoTxn) -> Result<ItemIter<'t, D>> {
         Ok(ItemIter {
+            dimensions: self.dimensions,
             inner: self
                 .database
                 .remap_key_type::<PrefixCodec>()
